@@ -95,7 +95,7 @@ def draw_params(ch, shape):
         return {"a": ch.pick([None] + sp, "a"), "b": ch.pick([None] + sp, "b"), "c": ch.pick(fp, "c")}
     if shape == "P3":
         return {"n": {"a": ch.pick(ip, "na"), "b": ch.pick(sp, "nb")}, "e": ch.pick(["RED", "GREEN"], "e"), "s": ch.pick([1, 1000, "1*m", "2.5*K", 0.001, "1000*µ", "1*K", "2500*UNIT", "0.0025*M"], "s")}
-    return {"m": ch.pick(["ma", "mb", "r1", "r2"], "m"), "k": ch.pick(ip, "k")}
+    return {"m": ch.pick(["ma", "mb", "r1", "r2", "x1", "x2", "x1"], "m"), "k": ch.pick(ip, "k")}
 
 
 class Color(enum.Enum):
@@ -136,7 +136,9 @@ class Env:
         ma.p = h.Port()
         mb = h.Module(name="ModB")
         mb.p = h.Port(width=2)
-        self.mods = {"ma": ma, "mb": mb, "r1": h.R(r=1), "r2": h.R(r=2)}
+        XE = h.ExternalModule(name="XE", port_list=[h.Port(name="a")], paramtype=P1, domain="verif")
+        # (x1 / x2: one external module called with different parameters)
+        self.mods = {"ma": ma, "mb": mb, "r1": h.R(r=1), "r2": h.R(r=2), "x1": XE(P1(a=1, b="x")), "x2": XE(P1(a=2, b="x"))}
         self.gens = []
         for gid, g in enumerate(gens):
             self.gens.append(self.make_gen(gid, g))
